@@ -13,14 +13,17 @@ Definition pins : list string := ["usim/_primitives/task.py:try_close";
   "usim/_primitives/task.py:Task.status";
   "usim/_primitives/task.py:Task.__close__";
   "usim/_primitives/task.py:Task.cancel";
+  "usim/_primitives/task.py:Task.__repr__";
   "usim/_primitives/task.py:Task.__del__";
   "usim/_primitives/task.py:Done.__init__";
   "usim/_primitives/task.py:Done.__bool__";
   "usim/_primitives/task.py:Done.__invert__";
   "usim/_primitives/task.py:Done.__set_done__";
+  "usim/_primitives/task.py:Done.__repr__";
   "usim/_primitives/task.py:NotDone.__init__";
   "usim/_primitives/task.py:NotDone.__bool__";
   "usim/_primitives/task.py:NotDone.__invert__";
+  "usim/_primitives/task.py:NotDone.__repr__";
   "usim/_primitives/task.py:<module>";
   "usim/_primitives/task.py:TaskState.<attrs>";
   "usim/_primitives/task.py:TaskCancelled.<attrs>";
@@ -37,12 +40,14 @@ Definition pins : list string := ["usim/_primitives/task.py:try_close";
   "usim/_primitives/context.py:InterruptScope.<attrs>";
   "usim/_primitives/context.py:InterruptScope.__aenter__";
   "usim/_primitives/context.py:InterruptScope.__init__";
+  "usim/_primitives/context.py:InterruptScope.__repr__";
   "usim/_primitives/context.py:InterruptScope._disable_interrupts";
   "usim/_primitives/context.py:InterruptScope._is_suppressed";
   "usim/_primitives/context.py:Scope.<attrs>";
   "usim/_primitives/context.py:Scope.__aenter__";
   "usim/_primitives/context.py:Scope.__aexit__";
   "usim/_primitives/context.py:Scope.__init__";
+  "usim/_primitives/context.py:Scope.__repr__";
   "usim/_primitives/context.py:Scope._await_children";
   "usim/_primitives/context.py:Scope._close_children";
   "usim/_primitives/context.py:Scope._close_scope";
